@@ -34,3 +34,6 @@ mod c08;
 
 #[cfg(kani)]
 mod c05;
+
+#[cfg(kani)]
+mod c10;
